@@ -67,7 +67,7 @@ FLOORS = {
                    "conflict.refused": 60, "conflict.unchanged-check": 60, "macro.groupconstant": 500, "macro.linearity": 300,
                    "macro.additivity": 300, "macro.creator": 60, "macro.derived": 60, "macro.totalscatter": 100, "macro.energy": 60,
                    "macro.empty": 20, "fixture.order": 100, "fixture.conflict": 4, "fixture.macro": 12,
-                   "macro.creator-gamma": 150, "macro.derived-gamma": 150, "macro.creator-missing": 150, "macro.creator-nucnames": 80,
+                   "merge.chi-flag-after-file-wide-chi-removal": 150, "macro.creator-gamma": 150, "macro.derived-gamma": 150, "macro.creator-missing": 150, "macro.creator-nucnames": 80,
                    "macro.multlib": 250, "macro.energy-missing": 300,
                    "compxs.order": 30, "compxs.region-identity": 250, "compxs.library-level": 30, "compxs.order-independence": 25,
                    "compxs.conflict.refused/group-structure": 45, "compxs.unchanged-check": 60},
@@ -76,7 +76,7 @@ FLOORS = {
                       "conflict.refused": 1200, "conflict.unchanged-check": 1200, "macro.groupconstant": 10000, "macro.linearity": 6000,
                       "macro.additivity": 6000, "macro.creator": 1200, "macro.derived": 1200, "macro.totalscatter": 2000, "macro.energy": 1200,
                       "macro.empty": 400, "fixture.order": 170, "fixture.conflict": 4, "fixture.macro": 100,
-                      "macro.creator-gamma": 3000, "macro.derived-gamma": 3000, "macro.creator-missing": 3000, "macro.creator-nucnames": 1500,
+                      "merge.chi-flag-after-file-wide-chi-removal": 3000, "macro.creator-gamma": 3000, "macro.derived-gamma": 3000, "macro.creator-missing": 3000, "macro.creator-nucnames": 1500,
                       "macro.multlib": 5000, "macro.energy-missing": 6000,
                       "compxs.order": 1200, "compxs.region-identity": 10000, "compxs.library-level": 1200, "compxs.order-independence": 1000,
                       "compxs.conflict.refused/group-structure": 900, "compxs.unchanged-check": 1200},
@@ -478,8 +478,12 @@ def gen_legal_set(rng, tag, m=None, complete=False, allowComposite=True):
     used = set()
     specs = []
     sameVel = rng.random() < 0.7
+    # an MC**2-2 style family: every ISOTXS file of it carries a file-wide chi (and most fissile nuclides lean on it)
+    mc22 = rng.random() < 0.25
     for i in range(m):
         kind = rng.choice(KINDS)
+        if mc22 and i < 2:
+            kind = "isotxs"
         xsid = rng.choice(ids)
         sub = rng.sample(names, rng.randint(1, len(names)))
         sub = [n for n in sub if (kind, LABEL_OF[n] + xsid) not in used]
@@ -487,7 +491,8 @@ def gen_legal_set(rng, tag, m=None, complete=False, allowComposite=True):
             xsid = spare.pop(0)
             sub = rng.sample(names, rng.randint(1, len(names)))
         used |= {(kind, LABEL_OF[n] + xsid) for n in sub}
-        specs.append(gen_libspec(rng, fam, kind, xsid, sub, "%s.%d" % (tag, i), sameVelocity=sameVel or i == 0, complete=complete))
+        specs.append(gen_libspec(rng, fam, kind, xsid, sub, "%s.%d" % (tag, i), fileChi=(True if (mc22 and kind == "isotxs") else None),
+                                 sameVelocity=sameVel or i == 0, complete=complete))
     if allowComposite and len(specs) >= 3 and rng.random() < 0.2:
         a = specs.pop(rng.randrange(len(specs)))
         b = specs.pop(rng.randrange(len(specs)))
@@ -647,6 +652,17 @@ def check_merged(rec, merged, sources, witness, tag="merge"):
                     if not is_empty_part(have):
                         rec.violation("merge/data-from-nowhere/%s" % p, "%s has %s although no source provided it" % (label, p), dict(witness, label=label))
                     continue
+                if p == "isotxsMetadata" and chiRule["isotxs"] and isinstance(have, dict) and isinstance(want, dict):
+                    # the file-wide chi is gone from the merged file (judged below), so every fissile nuclide - of whichever source -
+                    # must now say that it carries its own chi; otherwise the merged library holds fissile nuclides without any chi
+                    fis = want.get("fisFlag")
+                    if fis is not None and fis[1] > 0:
+                        rec.hit("merge.chi-flag-after-file-wide-chi-removal")
+                        if have.get("chiFlag") != ("i", 1):
+                            rec.violation("merge/file-wide-chi-dropped-but-fissile-nuclide-not-flagged-own-chi",
+                                          "%s is fissile (fisFlag %s) and the merged file has no file-wide chi any more, but its chiFlag is %s" % (label, fis[1], have.get("chiFlag")),
+                                          dict(witness, label=label))
+                            continue
                 if have == want:
                     continue
                 if p == "isotxsMetadata" and chiRule["isotxs"] and isinstance(have, dict) and isinstance(want, dict):
